@@ -17,6 +17,11 @@ THEOREMS = [
     "C15_latent_invariant",
     "C15_kmeans_scale_shift",
     "C15_kmeans_rotation",
+    "C15_enroll_invariant",
+    "C15_ivector_invariant",
+    "C15_jfa_training_equivariant",
+    "C15_isv_training_equivariant",
+    "C15_ivector_training_equivariant",
 ]
 CORR_OPS = ["gmm_ll:transformed", "gmm_estep:transformed"]
 RULE = ("pairs (original, affinely transformed) of inputs: per-feature scales in +-[1e-3, 1e3] (negative and widely different magnitudes), "
@@ -73,7 +78,7 @@ def correspondence(ctx):
 # ---- metamorphic oracles on the implementation -----------------------------------------------------------------------
 def rel_close(x, y, scale, tol=1e-7):
     x, y = np.asarray(x, float), np.asarray(y, float)
-    return x.shape == y.shape and bool(np.all(np.abs(x - y) <= tol * (np.abs(scale) + np.abs(y)) + 1e-300))
+    return x.shape == y.shape and bool(np.all(np.isfinite(x) & np.isfinite(y))) and bool(np.all(np.abs(x - y) <= tol * (np.abs(scale) + np.abs(y)) + 1e-300))
 
 
 def o_loglik(sc):
@@ -124,7 +129,7 @@ def o_fa(sc, ctx_rng):
     from bob.learn.em import linear_scoring
 
     r = ctx_rng
-    fa = fagen.fa_scenario(r, "quick", jfa=True, sessions=3)
+    fa = fagen.fa_scenario(r, "quick", jfa=True, sessions=int(r.integers(3, 6)))  # enrolment on 2 sessions, probe of 1-3 sessions
     C, D = fa["C"], fa["D"]
     a = 10.0 ** r.uniform(-2, 2, D) * r.choice([-1.0, 1.0], D)
     b = r.normal(size=D) * 5 * np.abs(a)
